@@ -11,6 +11,7 @@ import (
 	"time"
 
 	"github.com/fullstorydev/grpchan/simrt"
+	"google.golang.org/grpc/metadata"
 	"google.golang.org/protobuf/proto"
 )
 
@@ -98,6 +99,8 @@ type rpcState struct {
 	ctxVals   []ctxVal
 	mutatedObj map[proto.Message]bool
 	bpReported bool
+	outMD     metadata.MD
+	nestedIn  *rpcState
 }
 
 // Sim is one simulated run.
